@@ -315,6 +315,11 @@ template<int S>
 using method_of =
     typename method_of_<S, std::make_index_sequence<SHAPES[S].size()>>::type;
 
+// shapes SO_BASE.. have (mutable) static offsets: C12's stand-in for a program
+// compiled with the generated header
+constexpr int SO_BASE = 83;
+static_assert(SHAPES[SO_BASE] == "R" && SHAPES[SO_BASE + 3] == "RRRR");
+
 constexpr int shape_arity(int s) {
     int k = 0;
     for (char c : SHAPES[s])
@@ -327,6 +332,34 @@ constexpr int vrank(int s, int j) { // virtual rank of position j
         k += SHAPES[s][i] != 'N';
     return k;
 }
+
+} // namespace hx
+namespace yorel {
+namespace yomm2 {
+namespace detail {
+template<>
+struct static_offsets<hx::method_of<hx::SO_BASE + 0>> {
+    static inline std::size_t slots[1];
+};
+template<>
+struct static_offsets<hx::method_of<hx::SO_BASE + 1>> {
+    static inline std::size_t slots[2];
+    static inline std::size_t strides[1];
+};
+template<>
+struct static_offsets<hx::method_of<hx::SO_BASE + 2>> {
+    static inline std::size_t slots[3];
+    static inline std::size_t strides[2];
+};
+template<>
+struct static_offsets<hx::method_of<hx::SO_BASE + 3>> {
+    static inline std::size_t slots[4];
+    static inline std::size_t strides[3];
+};
+} // namespace detail
+} // namespace yomm2
+} // namespace yorel
+namespace hx {
 
 // address identifying the object an argument refers to
 inline std::uintptr_t ident(int v) {
